@@ -42,6 +42,21 @@ RF_RULE = ("every byte stream over {a,CR,LF,NUL} of length <=4 (quick; <=6 thoro
            "has repeated; distinct = distinct scenario; non-trivial = more than two calls")
 
 PROPS = {
+    "C07": {
+        "module": "FBV.Props.C07",
+        "theorems": ["FBV.C07.serve_spec", "FBV.C07.drain_spec", "FBV.C07.chain_read_spec", "FBV.C07.ab_read_spec", "FBV.C02.read_frame_spec"],
+        "jobs": (lambda tier: [{"which": "sync", "profile": "dev", "args": ["pl"], "oc": True}, {"which": "tokio", "profile": "dev", "args": ["apl"], "oc": True}]),
+        "tie": "T2 the loop of tests/server.rs re-expressed over a scripted transport (library calls are the real ones), blocking and tokio (hand-driven polls, Pending on reads and writes)",
+        "rule": ("connections of 1-3 requests `[len byte][extra][CR]LF payload` with payload lengths {0,1,2,3,5,9} (payload bytes include LF/CR), truncated at random "
+                 "points or followed by undelimited garbage; short connections x EVERY chunking x SIZE {4,6,8} x 6 destination-size schedules incl. zero-length "
+                 "destinations; seeded longer connections with random chunkings, scribbling short reads, SIZE up to 64; the tokio variant with Pending at any "
+                 "read or write poll; distinct = distinct scenario; non-trivial = more than one request"),
+        "level_text": ("Kernel-checked composition: for every connection stream, every chunking, every schedule of positive destination sizes, every lenOf (lengths 0, "
+                       "> SIZE, EOF inside a payload), every SIZE and contract-honouring deframer, the request loop returns exactly the consecutive segments of the "
+                       "stream (serve_spec = read_frame_spec + drain_spec over chain/take, with over-read buffer bytes delivered before any stream byte and the "
+                       "rest left for the next read_frame). PARTIAL in one named respect: zero-length destinations in the drain schedule and the response write-through "
+                       "are covered by the correspondence (and C08/C13), not by serve_spec; the async variant rests on C14/C16 and is tied by hand-driven polls."),
+    },
     "C02": {
         "module": "FBV.Props.C02",
         "theorems": ["FBV.pollLoop_outcome", "FBV.C02.read_frame_spec", "FBV.C02.read_frames_all", "FBV.C02.chunking_independent",
@@ -339,11 +354,20 @@ PROPS["C20"] = {
     "trusted_extra": ["tools/extract.py (lexer), cargo metadata, rustc's unsafe_code lint"],
 }
 PROPS["C18"] = {
-    "claimed": False,
     "module": "FBV.Props.C18",
     "theorems": ["FBV.C18.no_success_path_allocation_site"],
     "custom": c18_custom,
     "jobs": (lambda tier: [{"which": "sync", "profile": "dev", "args": [m], "oc": True} for m in ("t1", "df", "chain", "take", "rf", "c18")]),
-    "tie": "allocation counter of an instrumented #[global_allocator] around every library call of the C01/C02/C05/C08/C09 explorations",
-    "rule": "",
+    "tie": "allocation counter of an instrumented #[global_allocator] around every library call of the C01/C02/C05/C08/C09 explorations; size_of / static checks",
+    "rule": ("every library call of the T1 exploration (all FixedBuf methods incl. constructors via clone, deframe, try_parse, copy_once_from), the deframer "
+             "runs, the chain/take scenarios and the read_frame scenarios is bracketed by an allocation counter (scripted collaborators pause counting); "
+             "a call that completes without returning an error must show 0 allocations; size_of::<FixedBuf<N>>() for 25 sizes and a static FixedBuf"),
+    "level": "proof",
+    "technique": "regenerated allocation-site table + Lean decide over it; instrumented global allocator (measurement)",
+    "level_text": ("PARTIAL, said plainly. Allocation is an effect of compiled Rust that a functional model cannot exhibit; what the theorem carries is where "
+                   "allocation can come from: over the table of allocating constructs regenerated from the six anchored files on every run, none sits on a "
+                   "success path (only error paths, error conversions and the excepted String helpers). That the code does not allocate otherwise is MEASURED: "
+                   "an instrumented global allocator brackets every library call of the explorations (hundreds of thousands of calls, all SIZEs explored) "
+                   "and size_of shows the inline layout. The lexer's deny-list and the context classification are trusted."),
+    "trusted_extra": ["tools/extract.py (lexer, deny-list of allocating constructs, context classification)", "the counting #[global_allocator] in the harness"],
 }
